@@ -82,6 +82,18 @@ def c19_r1(ctx):
         for c in norm.calls_in(pl[0]) if norm.call_name(c) == "add_transition" and len(c.args) == 3)
     rest = [n for n in ast.walk(af.node) if isinstance(n, ast.For) and norm.deep_canon(n.iter, af.node) in ("xrange(prefix, len(term))", "range(prefix, len(term))")]
     ctx.ob(af, okp and bool(rest), "the first `prefix` characters must match exactly; edits start after them")
+    # the exact-prefix loop reads term[i]: the prefix length must have been clamped to len(term) (the brute-force path slices
+    # text[:prefix], which cannot overrun)
+    clamp = [st for st in ast.walk(af.node) if isinstance(st, ast.Assign) and norm.canon(st.targets[0]) == "prefix"
+             and norm.canon(st.value) in ("min(prefix, len(term))", "min(len(term), prefix)")]
+    loop_clamped = any(isinstance(n, ast.For) and norm.canon(n.iter) in ("range(min(prefix, len(term)))", "xrange(min(prefix, len(term)))",
+                                                                          "range(min(len(term), prefix))", "xrange(min(len(term), prefix))")
+                       for n in ast.walk(af.node))
+    guard = any(isinstance(n, ast.If) and norm.canon(n.test) in ("(len(term) < prefix)", "(prefix > len(term))") for n in ast.walk(af.node))
+    apos = norm.source_pos(af.node)
+    ctx.ob(af, (bool(clamp) and bool(pl) and apos(clamp[0]) < apos(pl[0])) or loop_clamped or guard,
+           "the exact-prefix length is clamped to the length of the term before term[i] is read",
+           detail="a prefix longer than the word makes the automaton path raise IndexError where the brute-force path answers")
     tw = prog.method("reading.IndexReader", "terms_within", inherited=False)
     ctx.saw(tw)
     loops = [n for n in ast.walk(tw.node) if isinstance(n, ast.For)]
